@@ -1,23 +1,48 @@
 import RawPanelVerif.Lemmas.TopoLookup
+import RawPanelVerif.Lemmas.TopoPreds
+import RawPanelVerif.Lemmas.TopoAlias
 /-!
 # C13 — Topology look-ups resolve type plus override correctly and never mutate
 
-Property theorems only.  The statement of the property is `Spec.Topo.checkLookup` (+ `predCompat`), the same
-executable predicate the check evaluates on the implementation's answers (Spec/TopologySpec.lean).
-All theorems are for **every** topology (any component list incl. duplicate ids, type 0, types missing from the
-index; any type index; every combination of override attributes — no hypothesis on `t` anywhere) and every id.
+Property theorems only.  The statement of the property is `Spec.Topo.checkLookup` (+ `checkPreds`, `predCompat`), the
+same executable predicate the check evaluates on the implementation's answers (Spec/TopologySpec.lean).
+All theorems are for **every** topology (any component list incl. duplicate ids, type 0, types missing from the index;
+any type index; every combination of override attributes — no hypothesis on `t` anywhere) and every id.
 
+Value level (`Model/Topology.lean`)
 * `lookup_holds`            every look-up of the interface, on every topology, satisfies every clause of the Spec
-                            (overlay, not-found results, agreement of the two resolvers, no mutation).
-* `resolveA_eq_overlay`     `GetTypeDefWithOverride` = attribute-wise overlay of the override on the indexed base type.
+                            (overlay, not-found results, agreement of the two resolvers, predicate values, no mutation).
+* `resolveA_eq_overlay`     `GetTypeDefWithOverride` = attribute-wise overlay of the override on the indexed base type
+                            (rotation: "non-empty" = not a zero of either sign, `-0 != 0` is false in Go).
 * `getHWCtype_eq_overlay`   `GetHWCtype(id)` = overlay for the first component carrying the id.
-* `not_found_results`       unknown ids: (-1,-1), "", nil+error, empty definition, empty component; index ≥ len: empty definition.
-* `resolvers_agree_on_shared`  both resolvers agree on the nine shared attributes whenever the type is indexed.
-* `resolveB_never_panics_on_valid_index` the second resolver is total for indices ≥ 0 (it does panic for negative ones:
-                            `resolveB_negative_index_panics`).
-* `predicates_depend_only_on_resolved`  two observations (any topologies, any ids / free-standing definitions) with equal
-                            resolved definitions report equal predicate values.
-* `lookups_do_not_mutate`   after any look-up the topology, hence its serialised form, is what it was.
+* `not_found_results`       unknown ids, exactly: (-1,-1), "", nil + the error text `No HWC found for <id>`, empty
+                            definition, empty component; index ≥ len: empty definition.
+* `resolveB_eq`             what the second resolver returns when the type is indexed: the overlay with description and
+                            render hints of the *base* type (it never assigns them).  `resolvers_agree_on_shared` is the
+                            corollary on the nine shared attributes; `resolvers_diverge_desc_counterexample` pins the difference.
+* `resolvers_on_unindexed`, `resolvers_diverge_unindexed_counterexample`  type not indexed: second resolver = empty
+                            definition, first = override over the empty definition (they differ as soon as the override is not empty).
+* `resolveBid_wraps`, `resolveBid_minus_one`, `wrapped_in_domain`  `int` ids outside `0…2^32-1` are looked up as their
+                            residue (`uint32(HWCid)`): `GetHWCTypeDefinitionFromHWCid(-1)` is the look-up of id 4294967295.
+                            `lookup_holds_any_int`: so every `int` id satisfies the Spec at its residue.
+* `resolveB_never_panics_on_valid_index`, `resolveB_negative_index_panics`.
+* `preds_meet_spec`         every derived predicate has the value the Spec's independent reading gives it: input kind =
+                            first comma-separated token (`inputType_is_first_token`: relational characterisation), kind
+                            lists for button/binary/pulsed/absolute/intensity, LED on the whole strings
+                            (`hasLED_whole_string_counterexample`), steps = index span, LED-bar steps on "contains".
+                            `button_implies_binary`, `button_and_pulsed_iff`.
+* `predicates_depend_only_on_resolved`  two observations with equal resolved definitions report equal predicate values.
+* `lookups_do_not_mutate`   value level: after any look-up the topology is what it was.
+
+Reference level (`Model/TopoAlias.lean`: `TypeOverride`, `Disp` pointers and `Sub` backing arrays are heap cells)
+* `execR_refines`           the value model is the abstraction of the store-of-cells model (every look-up, every closed heap).
+* `lookups_write_no_cell`   a look-up only allocates: every existing address holds what it held.
+* `lookups_do_not_mutate_heap`  hence topology and `ToJSON()` read the same afterwards.
+* `returned_refs_alias_storage`  the `Disp` / `Sub` references of a returned definition are the ones stored in the base
+                            type or the override: the result aliases topology storage (documented hazard, not a violation).
+* `alias_hazard_sub/disp/override`  concrete heaps: writing through the returned value changes `ToJSON()`
+                            (observed on the implementation by the `topo.alias` records; the model predicts each outcome).
+* `layout_denotes`, `layout_lookup`  every value topology has a closed layout; look-ups through it give the value model's answers.
 -/
 namespace RawPanelVerif.C13
 open RawPanelVerif RawPanelVerif.Topo
@@ -46,12 +71,13 @@ theorem getHWCtype_eq_overlay (t : Topology) (id : Nat) (c : HWc) (h : Spec.Topo
   simp only [getHWCtype, hj, resolveA_overlay]
 
 theorem not_found_results (t : Topology) (id : Nat) (h : Spec.Topo.firstWithId t id = none) :
-    (getHWCxy t id).1 = (-1, -1) ∧ (getHWCtext t id).1 = [] ∧ (∃ msg, (getHWCtype t id).1 = .inr msg) ∧
+    (getHWCxy t id).1 = (-1, -1) ∧ (getHWCtext t id).1 = [] ∧
+    (getHWCtype t id).1 = .inr (Spec.Topo.bytes "No HWC found for " ++ (Nat.toDigits 10 id).map (fun c => c.toNat.toUInt8)) ∧
     (id < 4294967296 → getHWCTypeDefinitionFromHWCid t id = some Spec.Topo.zero ∧
       getHWCDefinitionFromHWCid t id = {}) ∧
     (∀ k : Int, k ≥ t.hwc.length → getHWCTypeDefinition t k = some Spec.Topo.zero) := by
   have hf := findIdx_none t.hwc id 0 h
-  refine ⟨by simp only [getHWCxy, hf], by simp only [getHWCtext, hf], ⟨noHWCmsg id, by simp only [getHWCtype, hf]⟩, ?_, ?_⟩
+  refine ⟨by simp only [getHWCxy, hf], by simp only [getHWCtext, hf], by simp only [getHWCtype, hf]; rfl, ?_, ?_⟩
   · intro hid
     have : toU32 id = id := by unfold toU32; omega
     simp only [getHWCTypeDefinitionFromHWCid, getHWCDefinitionFromHWCid, this, hf, zeroTD_eq, and_self]
@@ -94,6 +120,127 @@ theorem resolveB_negative_index_panics (t : Topology) (k : Int) (hk : k < 0) :
   unfold getHWCTypeDefinition
   have h1 : ¬ (k ≥ (t.hwc.length : Int)) := by omega
   simp only [h1, hk, if_false, if_true]
+
+/-! ## the second resolver, exactly; integer ids outside `uint32` -/
+
+/-- what `GetHWCTypeDefinition` returns for a component whose type is indexed: the overlay, except that the
+description and the render hints stay those of the base type (the second resolver has no assignment for them) -/
+theorem resolveB_eq (t : Topology) (k : Nat) (c : HWc) (hc : t.hwc[k]? = some c) (bt : TypeDef)
+    (hb : Spec.Topo.base t c.type = some bt) :
+    getHWCTypeDefinition t k = some { Spec.Topo.resolved t c with desc := bt.desc, render := bt.render } := by
+  have hk : k < t.hwc.length := by
+    rcases Nat.lt_or_ge k t.hwc.length with h1 | h1
+    · exact h1
+    · rw [List.getElem?_eq_none h1] at hc; cases hc
+  have h1 : ¬ ((k : Int) ≥ (t.hwc.length : Int)) := by omega
+  have h2 : ¬ ((k : Int) < 0) := by omega
+  simp only [getHWCTypeDefinition, h1, h2, if_false, Int.toNat_natCast, hc, lookup_eq_base, hb, Spec.Topo.resolved,
+    Option.getD_some]
+  cases ho : c.ov with
+  | none => rfl
+  | some o =>
+    simp only [ovW_eq, ovH_eq, ovSubidx_eq, ovOut_eq, ovIn_eq, ovExt_eq, ovRotate_eq, ovDisp_eq, ovSub_eq,
+      Spec.Topo.overlay]
+    cases o.disp <;> cases o.sub <;> rfl
+
+/-- … and for a component whose type is **not** indexed the two resolvers part: the second returns the empty
+definition, the first the override laid over the empty definition -/
+theorem resolvers_on_unindexed (t : Topology) (k : Nat) (c : HWc) (hc : t.hwc[k]? = some c)
+    (hb : Spec.Topo.base t c.type = none) :
+    getHWCTypeDefinition t k = some Spec.Topo.zero ∧
+    getTypeDefWithOverride t c = Spec.Topo.overlay Spec.Topo.zero c.ov := by
+  have hk : k < t.hwc.length := by
+    rcases Nat.lt_or_ge k t.hwc.length with h1 | h1
+    · exact h1
+    · rw [List.getElem?_eq_none h1] at hc; cases hc
+  have h1 : ¬ ((k : Int) ≥ (t.hwc.length : Int)) := by omega
+  have h2 : ¬ ((k : Int) < 0) := by omega
+  refine ⟨by simp only [getHWCTypeDefinition, h1, h2, if_false, Int.toNat_natCast, hc, lookup_eq_base, hb, zeroTD_eq], ?_⟩
+  rw [resolveA_overlay, Spec.Topo.resolved, hb]; rfl
+
+/-- pinned divergence: type 9 is not indexed, the override supplies a width — the first resolver reports it, the
+second reports nothing -/
+theorem resolvers_diverge_unindexed_counterexample :
+    let t : Topology := { hwc := [{ id := 1, type := 9, ov := some { w := 7, desc := [65] } }], ti := [(3, { w := 100 })] }
+    getHWCTypeDefinition t 0 = some {} ∧ getTypeDefWithOverride t t.hwc[0] = { w := 7, desc := [65] } ∧
+    (match getHWCTypeDefinition t 0 with
+      | some td => Spec.Topo.sharedEq td (getTypeDefWithOverride t t.hwc[0]) | none => false) = false := by decide
+
+/-- indexed type: the two resolvers differ exactly in description and render hints (override `desc` ignored by the second) -/
+theorem resolvers_diverge_desc_counterexample :
+    let t : Topology := { hwc := [{ id := 1, type := 3, ov := some { desc := [66], render := [116] } }], ti := [(3, { w := 100, desc := [65] })] }
+    getHWCTypeDefinition t 0 = some { w := 100, desc := [65] } ∧
+    getTypeDefWithOverride t t.hwc[0] = { w := 100, desc := [66], render := [116] } := by decide
+
+theorem toU32_mod (id : Int) : toU32 (id % 4294967296) = toU32 id := by
+  unfold toU32; rw [Int.emod_emod_of_dvd id (Int.dvd_refl _)]
+
+/-- `uint32(HWCid)`: an `int` argument outside `0 … 2^32-1` is looked up as its residue — `-1` is the id 4294967295 -/
+theorem resolveBid_wraps (t : Topology) (id : Int) :
+    getHWCTypeDefinitionFromHWCid t id = getHWCTypeDefinitionFromHWCid t (id % 4294967296) ∧
+    getHWCDefinitionFromHWCid t id = getHWCDefinitionFromHWCid t (id % 4294967296) := by
+  simp only [getHWCTypeDefinitionFromHWCid, getHWCDefinitionFromHWCid, toU32_mod, and_self]
+
+theorem wrapped_in_domain (id : Int) :
+    InDomain (.resolveBid (id % 4294967296)) ∧ InDomain (.defId (id % 4294967296)) := by
+  have h1 := Int.emod_nonneg id (b := 4294967296) (by decide)
+  have h2 := Int.emod_lt_of_pos id (b := 4294967296) (by decide)
+  exact ⟨⟨h1, h2⟩, ⟨h1, h2⟩⟩
+
+theorem resolveBid_minus_one (t : Topology) :
+    getHWCTypeDefinitionFromHWCid t (-1) = getHWCTypeDefinitionFromHWCid t 4294967295 ∧
+    getHWCDefinitionFromHWCid t (-1) = getHWCDefinitionFromHWCid t 4294967295 := resolveBid_wraps t (-1)
+
+/-! ## the derived predicates have the values the protocol's kind vocabulary gives them -/
+
+/-- every predicate of every definition meets the Spec's independent reading (`Spec.Topo.checkPreds`):
+input kind = first comma-separated token; button / binary / pulsed / absolute / intensity = membership of that
+token in the kind lists; LED on the whole strings; steps = index span; LED-bar steps on "contains" -/
+theorem preds_meet_spec (td : TypeDef) : Spec.Topo.checkPreds td (predsOf td) = none := by
+  unfold Spec.Topo.checkPreds
+  simp only [predsOf, getInputType_eq, isButton_eq, isBinary_eq, isPulsed_eq, isAbsolute_eq, isIntensity_eq, hasLED_eq,
+    isMotorized_eq, hasDisplay, ledBarSteps, containsSub_eq_hasInfix, ne_eq, not_true_eq_false, if_false]
+  have hl : (if Spec.Topo.hasInfix sSteps td.ext = true then (td.sub.length : Int) else 0)
+      = (if Spec.Topo.hasInfix (Spec.Topo.bytes "steps") td.ext = true then (td.sub.length : Int) else 0) := rfl
+  simp only [hl, not_true_eq_false, if_false]
+  by_cases he : td.ext = Spec.Topo.bytes "steps"
+  · simp only [he, not_true_eq_false, if_false]
+    cases hs : Spec.Topo.stepSpan td with
+    | none => rfl
+    | some n =>
+      have hh : hasSteps td = n := hasSteps_span td he n hs
+      simp only [hh, not_true_eq_false, if_false]
+  · have h0 : hasSteps td = 0 := by
+      rw [hasSteps_unfold, if_neg]; exact he
+    simp only [he, not_false_eq_true, if_true, h0, not_true_eq_false, if_false]
+
+/-- the input kind is *the* first comma-separated token, in the relational reading -/
+theorem inputType_is_first_token (td : TypeDef) (tok : Str) :
+    Spec.Topo.IsFirstToken td.inp tok ↔ tok = getInputType td := by
+  rw [getInputType_eq]
+  exact ⟨isFirst_unique td.inp tok, fun h => h ▸ firstTok_isFirst td.inp⟩
+
+/-- every button is a binary input -/
+theorem button_implies_binary (td : TypeDef) (h : isButton td = true) : isBinary td = true := by
+  unfold isBinary; simp [h]
+
+/-- pulsed buttons (`pb`) are the only kind that is both a button and pulsed -/
+theorem button_and_pulsed_iff (td : TypeDef) :
+    (isButton td = true ∧ isPulsed td = true) ↔ getInputType td = bytesOf "pb" := by
+  unfold isButton isPulsed
+  generalize getInputType td = i
+  simp only [Bool.or_eq_true, decide_eq_true_eq]
+  constructor
+  · rintro ⟨h1, h2 | h2⟩
+    · exact h2
+    · subst h2; revert h1; decide
+  · intro h; subst h; decide
+
+/-- `HasLED` looks at the **whole** input string, the other kind predicates at its first token: `rg,x` is no LED
+input although its input kind is `rg` (pinned behaviour of the code, also what the Spec says) -/
+theorem hasLED_whole_string_counterexample :
+    let td : TypeDef := { inp := bytesOf "rg,x" }
+    getInputType td = bytesOf "rg" ∧ hasLED td = false ∧ hasLED { td with inp := bytesOf "rg" } = true := by decide
 
 /-- C13, all clauses, every look-up, every topology -/
 theorem lookup_holds (t : Topology) (q : Query) (hq : InDomain q) :
@@ -163,15 +310,32 @@ theorem lookup_holds (t : Topology) (q : Query) (hq : InDomain q) :
     cases hf : Spec.Topo.firstWithId t id.toNat with
     | none => simp [findIdx_none t.hwc id.toNat 0 hf, Spec.Topo.ok]
     | some c => obtain ⟨j, hj⟩ := findIdx_some t.hwc id.toNat 0 c hf; simp [hj, Spec.Topo.ok]
-  | pred td => simp [exec, execRes]
+  | pred td => exact preds_meet_spec td
   | predOf id =>
     simp only [exec, execRes, getHWCtype]
     cases hf : Spec.Topo.firstWithId t id with
     | none => simp [findIdx_none t.hwc id 0 hf]
-    | some c => obtain ⟨j, hj⟩ := findIdx_some t.hwc id 0 c hf; simp [hj, Spec.Topo.ok, resolveA_overlay]
+    | some c =>
+      obtain ⟨j, hj⟩ := findIdx_some t.hwc id 0 c hf
+      simp only [hj, resolveA_overlay, beq_self_eq_true, if_true]
+      exact preds_meet_spec _
 
 /-- "derived predicates depend only on the resolved definition": any two predicate observations — through a
 look-up by id on any topology or on a free-standing definition — are compatible -/
+theorem lookup_holds_any_int (t : Topology) (id : Int) :
+    (exec t (.resolveBid id)).1 = (exec t (.resolveBid (id % 4294967296))).1 ∧
+    (exec t (.defId id)).1 = (exec t (.defId (id % 4294967296))).1 ∧
+    Spec.Topo.checkLookup t (serialise t) (.resolveBid (id % 4294967296)) (exec t (.resolveBid id)).1 = none ∧
+    Spec.Topo.checkLookup t (serialise t) (.defId (id % 4294967296)) (exec t (.defId id)).1 = none := by
+  have hw := resolveBid_wraps t id
+  have e1 : (exec t (.resolveBid id)).1 = (exec t (.resolveBid (id % 4294967296))).1 := by
+    simp only [exec, execRes, hw.1]
+  have e2 : (exec t (.defId id)).1 = (exec t (.defId (id % 4294967296))).1 := by
+    simp only [exec, execRes, hw.2]
+  refine ⟨e1, e2, ?_, ?_⟩
+  · rw [e1]; exact lookup_holds t _ (wrapped_in_domain id).1
+  · rw [e2]; exact lookup_holds t _ (wrapped_in_domain id).2
+
 theorem predicates_depend_only_on_resolved (t t' : Topology) (q q' : Query) (x y : TypeDef × Preds)
     (hx : Spec.Topo.predPair q (exec t q).1.res = some x) (hy : Spec.Topo.predPair q' (exec t' q').1.res = some y) :
     Spec.Topo.predCompat x y = true := by
@@ -197,6 +361,57 @@ theorem predicates_depend_only_on_resolved (t t' : Topology) (q q' : Query) (x y
   · simp [h1, h2, he]
   · simp [he]
 
+/-! ## references: the store-of-cells model (`Model/TopoAlias.lean`)
+
+`TypeOverride`, `Disp` (pointers) and `Sub` (slice over a backing array) are heap cells; the resolvers copy the
+addresses.  A look-up is `Heap → result × Heap`. -/
+
+section alias
+open RawPanelVerif.Topo.Alias
+
+/-- the value model used by every other theorem is the abstraction of the store-of-cells model: the answer of each
+look-up, read in the heap it leaves behind, is the value model's answer on the topology the heap denotes -/
+theorem execR_refines (h : Heap) (t : TopologyR) (hc : Closed h t) (q : Query) :
+    absRes (execR h t q).2 (execR h t q).1 = (execRes (absTopo h t) q).1 := execR_refines' h t hc q
+
+/-- no look-up writes a cell: the heap afterwards is the heap before plus freshly allocated cells at the end
+(`return &typeDef`), so every address that existed holds what it held -/
+theorem lookups_write_no_cell (h : Heap) (t : TopologyR) (q : Query) :
+    ∃ fresh, (execR h t q).2 = h ++ fresh ∧ ∀ a, a < h.length → (execR h t q).2[a]? = h[a]? := by
+  obtain ⟨x, hx⟩ := execR_extends h t q
+  exact ⟨x, hx, fun a ha => by rw [hx]; exact List.getElem?_append_left ha⟩
+
+/-- … hence the topology, and its serialised form, read the same after any look-up (`ToJSON()` unchanged) -/
+theorem lookups_do_not_mutate_heap (h : Heap) (t : TopologyR) (hc : Closed h t) (q : Query) :
+    absTopo (execR h t q).2 t = absTopo h t ∧
+    serialise (absTopo (execR h t q).2 t) = serialise (absTopo h t) ∧ Closed (execR h t q).2 t := by
+  obtain ⟨x, hx⟩ := execR_extends h t q
+  rw [hx, absTopo_ext h x t hc]
+  exact ⟨rfl, rfl, closed_ext h x t hc⟩
+
+/-- **the documented hazard**: the display pointer and the sub-element slice of a resolved definition are the
+addresses stored in the indexed base type or in the component's override — the returned value aliases topology
+storage (nothing is deep-copied) -/
+theorem returned_refs_alias_storage (h : Heap) (t : TopologyR) (c : HWcR) :
+    ((resolveAR h t c).dispP = ((Map.lookup t.ti c.c.type).getD zeroR).dispP ∨
+      ∃ a, c.ovP = some a ∧ (resolveAR h t c).dispP = (h.tdAt a).dispP) ∧
+    ((resolveAR h t c).subP = ((Map.lookup t.ti c.c.type).getD zeroR).subP ∨
+      ∃ a, c.ovP = some a ∧ (resolveAR h t c).subP = (h.tdAt a).subP) := resolveAR_refs h t c
+
+/-- every value topology has a closed layout that denotes it (each reference in its own cell, as after
+`json.Unmarshal`), so the theorems above are not about an empty class of heaps -/
+theorem layout_denotes (t : Topology) : Closed (layTopo t).1 (layTopo t).2 ∧ absTopo (layTopo t).1 (layTopo t).2 = t :=
+  layTopo_spec t
+
+/-- on such a layout the look-ups through the heap give exactly the value model's answers -/
+theorem layout_lookup (t : Topology) (q : Query) :
+    absRes (execR (layTopo t).1 (layTopo t).2 q).2 (execR (layTopo t).1 (layTopo t).2 q).1 = (execRes t q).1 := by
+  have h := execR_refines (layTopo t).1 (layTopo t).2 (layTopo_spec t).1 q
+  rw [(layTopo_spec t).2] at h
+  exact h
+
+end alias
+
 /-! ## non-vacuity: concrete instances on which the clauses are exercised -/
 
 def exBase : TypeDef := { w := 100, h := 50, inp := [98], desc := [65], subidx := 2, rotate := [57, 48], sub := [{ idx := 1 }] }
@@ -221,5 +436,33 @@ example : Spec.Topo.checkLookup exTopo [] (.type 1) { res := .typeDef exBase, af
 example : Spec.Topo.checkLookup exTopo [] (.xy 7) { res := .xy 0 0, after := [] } = some "notfound.xy" := by decide
 example : Spec.Topo.checkLookup exTopo [] (.xy 7) { res := .xy (-1) (-1), after := [1] } = some "mutated" := by decide
 example : Spec.Topo.checkLookup exTopo [] (.resolveB 0) { res := .typeDef exBase, after := [] } = some "agree" := by decide
+
+
+/-! ### aliasing, on a concrete heap: component 1 of `exTopo` resolves to the base type's sub-element array and to
+its own override's display cell -/
+section aliasex
+open RawPanelVerif.Topo.Alias
+def exH : Heap := (layTopo exTopo).1
+def exR : TopologyR := (layTopo exTopo).2
+example : absTopo exH exR = exTopo := by decide +kernel
+/-- write through the returned `Sub[0]` (the base type's array, shared by every component of type 3): `ToJSON()` changes -/
+theorem alias_hazard_sub : aliasOutcome exH exR (execR exH exR (.type 1)) .sub = (true, true) := by decide +kernel
+/-- write through the returned `Disp` (the override's cell): `ToJSON()` changes -/
+theorem alias_hazard_disp : aliasOutcome exH exR (execR exH exR (.type 1)) .disp = (true, true) := by decide +kernel
+/-- the component getter returns a copy whose `TypeOverride` pointer is the topology's -/
+theorem alias_hazard_override : aliasOutcome exH exR (execR exH exR (.defId 1)) .ov = (true, true) := by decide +kernel
+/-- the second resolver shares the same cells -/
+example : aliasOutcome exH exR (execR exH exR (.resolveB 0)) .sub = (true, true) := by decide +kernel
+/-- a free-standing component: its own override cell is not topology storage (no change), the base type's is -/
+example :
+    let p := layHWc exH { id := 9, type := 3, ov := some { sub := [{ x := 1 }] } }
+    aliasOutcome p.1 exR (execRx p.1 exR p.2) .sub = (true, false) ∧
+    (let p2 := layHWc exH { id := 9, type := 3, ov := some { w := 5 } }
+     aliasOutcome p2.1 exR (execRx p2.1 exR p2.2) .sub = (true, true)) := by decide +kernel
+/-- nothing to write through: component 4 has type 0, no override -/
+example : aliasOutcome exH exR (execR exH exR (.type 4)) .sub = (false, false) := by decide +kernel
+/-- the look-up itself leaves every cell alone -/
+example : (execR exH exR (.type 1)).2.take exH.length = exH ∧ (execR exH exR (.type 1)).2.length = exH.length + 1 := by decide +kernel
+end aliasex
 
 end RawPanelVerif.C13
